@@ -72,8 +72,11 @@ PROPS['C05'] = dict(
         defs=dict(quick=['-DMAXN=4', '-DMAXO=2', '-DFO=1'], thorough=['-DMAXN=5', '-DMAXO=3', '-DFO=1', '-DFO2=2']),
         functions=['OperatorProduct::transform', 'OperatorSum::transform/add', 'ScalarMultiplication::transform', 'operator*(O1,O2)', 'operator+(O1,O2)', 'operator-(O1,O2)',
                    'operator*(S,O)', 'operator*(O,S)', 'operator/(O,S)', 'operator+(O,S)', 'operator+(S,O)', 'operator-(O,S)', 'operator-(S,O)', 'operator-(O)',
-                   'SplineOperator::transform', 'Derivative::transform', 'Position::transform', 'IdentityOperator::transform', 'transformSpline']))],
-    bounds=dict(quick='expression trees: 10 named (commutator, hydrogen-like, generator, ...) + all 198 trees with one composite node over the leaves {I, X<1>, X<2>, Dx<1>, Dx<2>, SplineOperator(v)} with scalars of type T (symbolic) and int (literals, incl. int divisors) + 84 one-level trees with scalars of type unsigned, size_t, long, short + all 315 nestings of two builder functions (unary over unary, binary over a unary child on either side) + 160 seed-selected further trees with two composite nodes + 48 seed-selected trees with builders nested three and four deep; operand orders 0..2; factor order 1; every operand window x every factor window on grids of 2..4 symbolic points; every operator is built from named scalar/spline objects that are overwritten before the operator is applied',
+                   'SplineOperator::transform', 'Derivative::transform', 'Position::transform', 'IdentityOperator::transform', 'transformSpline'])),
+               dict(mode='c05lg', ntu=4, template=dict(chunk=1,
+        defs=dict(quick=['-DFIXED_GRID', '-DLARGE=17', '-DFO=1'], thorough=['-DFIXED_GRID', '-DLARGE=20', '-DFO=1']),
+        functions=['the 10 named expressions and the 27 one-level trees with a spline factor on sampled operand/factor windows of a 17-point (thorough: 20-point) fixed rational grid, operand orders 1 and 2']))],
+    bounds=dict(quick='expression trees: 10 named (commutator, hydrogen-like, generator, ...) + all 198 trees with one composite node over the leaves {I, X<1>, X<2>, Dx<1>, Dx<2>, SplineOperator(v)} with scalars of type T (symbolic) and int (literals, incl. int divisors) + 84 one-level trees with scalars of type unsigned, size_t, long, short + all 315 nestings of two builder functions (unary over unary, binary over a unary child on either side) + 160 seed-selected further trees with two composite nodes + 48 seed-selected trees with builders nested three and four deep; operand orders 0..2; factor order 1; every operand window x every factor window on grids of 2..4 symbolic points; every operator is built from named scalar/spline objects that are overwritten before the operator is applied; plus the named expressions and all one-level trees with a spline factor on sampled windows of a 17-point FIXED rational grid',
                 thorough='all 2808 two-level trees of the generator, operand orders 0..3, factor orders 1 and 2, grids of 2..5 points'),
     outside='trees deeper than two composite nodes other than the sampled 48 (240) with three/four levels; X<n>/Dx<n> with n>2 inside expressions (covered alone by C04); lvalue operator operands (do not compile); scalar types other than T, int, unsigned, size_t, long, short',
     assumptions=['grid points strictly increasing reals', 'T-typed divisor non-zero', 'exact real arithmetic (sym::Real), not IEEE'],
